@@ -115,6 +115,20 @@ def mask_select(I, arr, mask):
     RANK(k) = number of selected positions before k (fresh ghost function with its recursion
     equations); result[RANK(k)] == arr[k] for every selected k; len(result) == RANK(n)."""
     n = zint(arr.shape[0])
+    nc = simp(n)
+    if isinstance(nc, int) and nc <= 4096:
+        ms = [simp(z3.Select(mask.arr, q)) for q in range(nc)]
+        if all(isinstance(x, (int, bool)) for x in ms):
+            # concrete mask (replay mode): build the selection directly
+            res = SymArr(arr.name + "_sel", arr.ctype, [sum(1 for x in ms if x)] + list(arr.shape[1:]))
+            t = res.arr
+            r = 0
+            for q, x in enumerate(ms):
+                if x:
+                    t = z3.Store(t, r, z3.Select(arr.arr, q))
+                    r += 1
+            res.arr = t
+            return res
     rank = z3.Function(I.ctx.fresh_name("RANK"), z3.IntSort(), z3.IntSort())
     sel = lambda k: z3.Select(mask.arr, k) != 0
     k, k2 = z3.Ints("k!rk k2!rk")
@@ -374,6 +388,11 @@ def make_module(I):
         n = zint(arr.shape[0])
         if I_.ctx.branch(n <= 0):
             I_.throw("ValueError", "zero-size array to reduction operation maximum which has no identity")
+        nc = simp(n)
+        if isinstance(nc, int) and nc <= 4096:
+            vals = [simp(z3.Select(arr.arr, q)) for q in range(nc)]
+            if all(isinstance(x, int) for x in vals):
+                return CV(arr.ctype, max(vals)) if arr.ctype else max(vals)
         r = I_.ctx.fresh_int("npmax")
         w = I_.ctx.fresh_int("npmax_at")
         q = z3.Int("q!max")
